@@ -43,6 +43,8 @@ Inductive query :=
 | QIsAvailable (F : path) (n : string) (ans : bool)
 | QGotoOrDef (F : path) (line col : N) (ans : option fdef)
 | QNameAt (F : path) (line col : N) (ans : option string)
+| QRefsX (d : fdef) (ans : list usage) (gotos : list (usage * option fdef))
+| QAgree (F : path) (avail : list fdef) (per : list (string * option fdef * option fdef))
 | QDump (d : dump).
 
 Inductive step := Op (o : wop) | Ask (q : query).
@@ -99,6 +101,16 @@ Section Verdict.
     | QIsAvailable F n ans => Bool.eqb (is_available s F n) ans
     | QGotoOrDef F l c ans => opt_def_eqb (goto_or_def dk roots s F l c) ans
     | QNameAt F l c ans => opt_eqb String.eqb (name_at dk s F l c) ans
+    | QRefsX d ans gotos =>
+        list_eqb usage_eqb (refs dk roots s d) ans
+        && forallb (fun ug => opt_def_eqb (resolve_usage dk roots s (u_file (fst ug)) (u_line (fst ug)) (u_name (fst ug)))
+                                          (snd ug)) gotos
+    | QAgree F avail per =>
+        list_eqb fdef_eqb (available dk roots s F) avail
+        && forallb (fun x => match x with
+                             | (n, c, r) => opt_def_eqb (closest dk roots s F n) c
+                                            && opt_def_eqb (resolve_for_file s F n) r
+                             end) per
     | QDump d => dump_ok s d
     end.
 End Verdict.
